@@ -1296,6 +1296,11 @@ func runProgram(src string, recs []*probeRec) (out []string) {
 	L := lua.NewState()
 	w := &progWorld{L: L, recs: recs, rt: NewRefTable()}
 	w.install()
+	// generated programs terminate: an instruction budget ends one that does not (a goroutine abandoned by the watchdog
+	// below would otherwise keep running — and allocating — for the rest of the check)
+	bctx, bstop := newBudgetCtxWithBackstop(20000000, 3*time.Minute)
+	defer bstop()
+	L.SetContext(bctx)
 	done := make(chan struct{})
 	go func() {
 		defer close(done)
